@@ -13,6 +13,7 @@ import (
 	"fmt"
 	"math"
 	"sort"
+	"strconv"
 	"strings"
 	"sync"
 	"unsafe"
@@ -1625,9 +1626,15 @@ func parseFieldNumValue(s string) (float64, int32, error) {
 		return 0, Field_Type_Unknown, fmt.Errorf("invalid number")
 	}
 	if ch == 'f' && len(s) > 1 {
-		// Unsigned integer value
+		// Float value with an explicit suffix
 		ss := s[:len(s)-1]
-		n := fastfloat.ParseBestEffort(ss)
+		if !IsValidNumber(ss) {
+			return 0, Field_Type_Unknown, fmt.Errorf("invalid field value")
+		}
+		n, err := strconv.ParseFloat(ss, 64)
+		if err != nil || math.IsNaN(n) || math.IsInf(n, 0) {
+			return 0, Field_Type_Unknown, fmt.Errorf("invalid number")
+		}
 		return n, Field_Type_Float, nil
 	}
 	if s == "t" || s == "T" || s == "true" || s == "True" || s == "TRUE" {
@@ -1641,8 +1648,10 @@ func parseFieldNumValue(s string) (float64, int32, error) {
 		return 0, Field_Type_Unknown, fmt.Errorf("invalid field value")
 	}
 
-	f := fastfloat.ParseBestEffort(s)
-	if math.IsNaN(f) || math.IsInf(f, 0) {
+	// strconv.ParseFloat is correctly rounded and handles every spelling IsValidNumber accepts
+	// (leading '+', trailing '.'), which fastfloat.ParseBestEffort does not.
+	f, err := strconv.ParseFloat(s, 64)
+	if err != nil || math.IsNaN(f) || math.IsInf(f, 0) {
 		return 0, Field_Type_Unknown, fmt.Errorf("invalid number")
 	}
 
